@@ -1023,12 +1023,19 @@ func (m *modInfo) judgePlants(label string, ps []plant, rs []plantRes, useOracle
 				model = ""
 			}
 		}
-		// finding switch (C13-F1): for a module without code the as-is model accepts entries cut inside the
-		// unread checksum field. If the code no longer does, the repaired variant must correspond instead.
-		if useOracle && p.trunc && len(m.Lay.Exec) == 0 && strings.HasPrefix(model, "ok ") && cls == "err" {
-			if fixed := orc.Askf("c13 deserfixed %s %s", ver, hexOrDash(p.bytes)); strings.HasPrefix(fixed, "err ") {
-				model = fixed
-				rep.Count("finding-switch:C13-F1:repaired-variant-corresponds")
+		// finding switch (C13-F1): the as-is reader skips the checksum when the executable is empty, the repaired one
+		// always reads it.  Where the two model variants disagree, the real outcome selects the variant; a run in
+		// which both variants were needed is reported (variant-mixed).
+		if useOracle {
+			if fixed := orc.Askf("c13 deserfixed %s %s", ver, hexOrDash(p.bytes)); fixed != model {
+				want := map[string]string{"ok": "hit", "stale": "recompiled", "err": "err", "panic": "panic"}
+				switch cls {
+				case want[strings.SplitN(fixed, " ", 2)[0]]:
+					model = fixed
+					readerVariant["repaired"]++
+				case want[strings.SplitN(model, " ", 2)[0]]:
+					readerVariant["as-is"]++
+				}
 			}
 		}
 		mcls := strings.SplitN(model, " ", 2)[0]
@@ -1103,6 +1110,10 @@ func (m *modInfo) judgePlants(label string, ps []plant, rs []plantRes, useOracle
 		}
 	}
 }
+
+// readerVariant counts, over the planted entries on which the two variants of the reader model disagree, which
+// variant the real reader matched (finding switch C13-F1)
+var readerVariant = map[string]int{}
 
 func (m *modInfo) truncations(all bool, r *rand.Rand, useOracle bool) {
 	L := len(m.Entry)
@@ -1598,6 +1609,12 @@ func main() {
 			m.concurrent(i, r)
 			m.concurrentInProcess(i)
 		}
+	}
+	if readerVariant["repaired"] > 0 && readerVariant["as-is"] > 0 {
+		violate("correspondence", "C13:reader-variant-mixed", fmt.Sprintf("the real reader matches the as-is model on %d and the repaired model on %d of the planted entries that distinguish them", readerVariant["as-is"], readerVariant["repaired"]), nil, nil, nil)
+	}
+	for k, v := range readerVariant {
+		rep.Count(fmt.Sprintf("finding-switch:C13-F1:%s-variant-corresponds:%d", k, v))
 	}
 	rep.Exhaustive = false
 	rep.Write(orc)
